@@ -36,9 +36,11 @@ METHS = ("cdf", "icdf", "pdf")
 DRV_FAM = {
     "WeibullDistribution": 0, "LogNormalDistribution": 1, "NormalDistribution": 2,
     "LogNormalNormFitDistribution": 3, "ExponentiatedWeibullDistribution": 4,
-    "GeneralizedGammaDistribution": 5, "VonMisesDistribution": 6,
+    "GeneralizedGammaDistribution": 5, "VonMisesDistribution": 6, "GumbelScipyDistribution": 7,
 }
-SCIPY_SUB = {"GammaScipyDistribution": sts.gamma, "BetaScipyDistribution": sts.beta}
+SCIPY_SUB = {"GammaScipyDistribution": sts.gamma, "BetaScipyDistribution": sts.beta,
+             "GumbelScipyDistribution": sts.gumbel_r}
+DOC_PARAMS = sentinel.DOC_PARAMS
 
 
 # ---------------------------------------------------------------------------
@@ -121,7 +123,7 @@ def ref_ppf(name, theta, ps):
             return sts.gengamma.ppf(ps, t["m"], t["c"], 0, 1 / t["lambda_"])
         if name == "VonMisesDistribution":
             return sts.vonmises.ppf(ps, t["kappa"], t["mu"])
-        return SCIPY_SUB[name].ppf(ps, *t.values())
+        return SCIPY_SUB[name].ppf(ps, **t)  # by NAME (shape names, loc, scale): scipy's own keyword interface
 
 
 def probe_points(name, theta):
@@ -137,7 +139,8 @@ def probe_points(name, theta):
         if name != "VonMisesDistribution":
             off += [0.0, -1.0] if lo >= 0 else []
     else:
-        off = []
+        # support unbounded below (normal, Gumbel): a point far in the lower tail (cdf -> 0, pdf -> 0)
+        off = [float(xin[0] - 50.0 * span - 1.0)]
     if name == "VonMisesDistribution":
         hi = theta["mu"] + np.pi
         off += [hi, hi + 0.5, hi + 7.0]
@@ -159,17 +162,19 @@ def run_rows(ck, rows, rng, n_val, only_fixed=None):
     for row in rows:
         if only_fixed is not None and bool(row["fixed"]) != only_fixed:
             continue
+        if row["fam"] in sentinel.FAMILY_ERRORS:
+            continue
         name = row["fam"]
         cls, params = sentinel.family(name)
         k = len(params)
         for _ in range(n_val):
-            arg = list(sentinel.random_theta(rng, name, wide=False).values())
-            farg = list(sentinel.random_theta(rng, name, wide=False).values())
-            expl = list(sentinel.random_theta(rng, name, wide=False).values())
+            arg = sentinel.random_values(rng, name, wide=False)
+            farg = sentinel.random_values(rng, name, wide=False)
+            expl = sentinel.random_values(rng, name, wide=False)
             if rng.integers(0, 4) == 0:
                 # whole-number parameter values handed over as Python ints (an explicit lambda_=2, sigma=1, ...)
                 expl = [int(max(1, round(v))) if v > 0 else int(round(v)) for v in expl]
-            dep = list(sentinel.random_theta(rng, name, wide=False).values())
+            dep = sentinel.random_values(rng, name, wide=False)
             eff_theta = {params[p]: (farg[p] if (p in row["fixed"] and (row["mode"] == 2 or p not in row["expl"]))
                                      else dep[p] if row["mode"] == 2
                                      else expl[p] if p in row["expl"] else arg[p]) for p in range(k)}
@@ -335,7 +340,12 @@ def explore_case(ck, name, theta, theta0, jobs, pending):
     case = {"kind": "explore", "family": name, "theta": theta, "theta0": theta0,
             "x": [float(v) for v in xs], "p": [float(v) for v in ps]}
     bad = []
-    A = cls(**theta)
+    try:
+        A = cls(**theta)
+    except Exception as e:  # noqa: BLE001
+        ck.case(case, nontrivial=True, sample=False)
+        ck.fail(_sig(name, "__init__", "constructs"), case, f"{name}(**{theta}) raises {type(e).__name__}: {e}")
+        return case
     ref = {}
     for meth in METHS:
         arr = ps if meth == "icdf" else xs
@@ -351,7 +361,7 @@ def explore_case(ck, name, theta, theta0, jobs, pending):
         # --- explicit parameters = constructed instance (all, default instance, positional, single)
         variants = [("all_explicit_kw", cls(**theta0), (), dict(theta)),
                     ("all_explicit_default_instance", cls(), (), dict(theta)),
-                    ("all_explicit_positional", cls(**theta0), tuple(theta[p] for p in params), {})]
+                    ("all_explicit_positional", cls(**theta0), tuple(theta[p] for p in DOC_PARAMS[name]), {})]
         for label, inst, a, kw in variants:
             g, exc = call(inst, meth, arr, *a, **kw)
             if exc:
@@ -360,7 +370,7 @@ def explore_case(ck, name, theta, theta0, jobs, pending):
                 bad.append((_sig(name, meth, "explicit_equals_constructed"),
                             f"[{label}] {name}(**{theta0 if 'default' not in label else {}}).{meth}(x, {a or kw}) = "
                             f"{np.asarray(g).tolist()} but {name}(**{theta}).{meth}(x) = {v.tolist()}; x={arr.tolist()}"))
-        for p in params:
+        for p in DOC_PARAMS[name]:
             mixed = dict(theta0)
             mixed[p] = theta[p]
             g, exc = call(cls(**theta0), meth, arr, **{p: theta[p]})
@@ -402,24 +412,26 @@ def explore_case(ck, name, theta, theta0, jobs, pending):
         bad += consistency(name, theta, A, xs, ps, ref, lo)
     # --- documented formula
     if name in DRV_FAM:
+        # closed form evaluated by the Lean model at Float; parameters handed over in the DOCUMENTED order
         f = DRV_FAM[name]
-        th = [theta[p] for p in params]
+        th = [theta[p] for p in DOC_PARAMS[name]]
         for mi, meth in enumerate(METHS):
             if meth in ref:
                 jobs.append((f, mi, th, list(ps if meth == "icdf" else xs)))
                 pending.append((case, name, meth, ref[meth]))
-    else:
+    if name in SCIPY_SUB:
+        # a ScipyDistribution subclass IS the scipy law with the same parameter names: scipy called by keyword
+        # (independent of the order in which the code under test lists / forwards the parameters)
         d = SCIPY_SUB[name]
-        th = [theta[p] for p in params]
         for meth in METHS:
             if meth not in ref:
                 continue
             arr = ps if meth == "icdf" else xs
             with np.errstate(all="ignore"):
-                want = getattr(d, "ppf" if meth == "icdf" else meth)(arr, *th)
+                want = getattr(d, "ppf" if meth == "icdf" else meth)(arr, **theta)
             if not sentinel.same_values(ref[meth], want):
                 bad.append((_sig(name, meth, "documented_formula"),
-                            f"{name}(**{theta}).{meth} = {ref[meth].tolist()} but scipy.stats.{d.name}.{meth}(x, *{th}) = {want.tolist()}"))
+                            f"{name}(**{theta}).{meth} = {ref[meth].tolist()} but scipy.stats.{d.name}.{meth}(x, **{theta}) = {want.tolist()}"))
     nontrivial = len(xin) >= 5 and theta != cls().parameters
     ck.case(case, nontrivial=nontrivial, sample=(len(ck.samples) < 4))
     ck.count("explore:" + name)
@@ -448,6 +460,8 @@ def consistency(name, theta, A, xs, ps, ref, lo):
         strictly = xs < lo
         if not circ and np.any(pdf[strictly] != 0):
             bad.append((_sig(name, "pdf", "zero_off_support"), f"pdf {pdf[strictly].tolist()} at {xs[strictly].tolist()} (support starts at {lo})"))
+    if len(c) and not circ and not np.isfinite(lo) and not (c[0] <= 1e-9):
+        bad.append((_sig(name, "cdf", "limit_zero"), f"cdf({xc[0]!r}) = {c[0]!r} (support unbounded below)"))
     if len(c) and not (c[-1] >= 1 - 1e-9):
         bad.append((_sig(name, "cdf", "limit_one"), f"cdf({xc[-1]!r}) = {c[-1]!r}"))
     if np.any(np.isnan(pdf)) or np.any(pdf < 0):
@@ -541,6 +555,48 @@ def compare_model(ck, pending, results):
 # ---------------------------------------------------------------------------
 
 
+def check_documented_parameters(ck):
+    """documented parameterisation: the family's parameters have the documented names in the documented order (the
+    order of `.parameters` is the positional order of the constructor and of explicit parameters in a call; for a
+    ScipyDistribution subclass: scipy's shape names, then loc, scale)"""
+    for name, (pred, text) in sentinel.FAMILY_ERRORS.items():
+        case = {"kind": "params", "family": name}
+        ck.case(case, nontrivial=True, sample=False)
+        ck.fail(_sig(name, "__init__" if pred == "constructs" else "parameters", pred), case, text)
+    for name, cls, params in sentinel.live_families():
+        case = {"kind": "params", "family": name}
+        ck.case(case, nontrivial=True, sample=False)
+        ck.count("params:" + name)
+        bad = check_params(case)
+        for sig, detail in bad:
+            ck.fail(sig, case, detail)
+
+
+def check_params(case):
+    name = case["family"]
+    cls, _ = sentinel.family(name)
+    try:
+        got = list(cls().parameters)
+    except Exception as e:  # noqa: BLE001
+        return [(_sig(name, "__init__", "constructs"), f"{name}() raises {type(e).__name__}: {e}")]
+    if sorted(got) != sorted(DOC_PARAMS[name]):
+        return [(_sig(name, "parameters", "documented_parameters"),
+                 f"{name}().parameters lists {got}, the documented parameters are {DOC_PARAMS[name]}")]
+    if got != DOC_PARAMS[name]:
+        return [(_sig(name, "parameters", "documented_parameter_order"),
+                 f"{name}().parameters lists {got}, documented (positional) order is {DOC_PARAMS[name]}")]
+    return []
+
+
+def observe_unknown_parameter_name(ck):
+    """a keyword that names no parameter of the family, passed to cdf/icdf/pdf: C05 quantifies over the family's own
+    parameters, so the outcome class gets NO verdict; the path is executed and counted"""
+    for name, cls, params in sentinel.live_families():
+        for meth in METHS:
+            _, exc = call(cls(), meth, 0.5, nosuch=1.5)
+            ck.count("observed_no_verdict:unknown_parameter_name:" + (exc.split(":")[0] if exc else "accepted"))
+
+
 def corpus_cases():
     """witnesses of DESIGN section 4 #1 and #12 (corpus/C05/*.json, run first)"""
     import glob
@@ -585,6 +641,7 @@ def main(ck):
         named = [r for r in rows if (r["fam"], r["meth"], tuple(r["fixed"]), tuple(r["expl"]), r["mode"]) in keys
                  and not r["fixed"]]
         run_rows(ck, named, rng, 2)
+    check_documented_parameters(ck)
     # (1) corpus
     jobs, pending = [], []
     for name, theta, theta0 in corpus_cases():
@@ -593,13 +650,14 @@ def main(ck):
     run_rows(ck, rows, rng, 3 if thorough else 1, only_fixed=False)
     # (3) exploration
     n_theta = 400 if thorough else 24
-    for name, _, _ in TABLES["families"]:
+    for name, _, _ in sentinel.live_families():
         for _ in range(n_theta):
             theta = sentinel.random_theta(rng, name, wide=True)
             theta0 = sentinel.random_theta(rng, name, wide=True)
             explore_case(ck, name, theta, theta0, jobs, pending)
     results = model_values(ck, jobs)
     compare_model(ck, pending, results)
+    observe_unknown_parameter_name(ck)
     ck.extra["exhaustive"] = False
     ck.extra["generated_rows"] = {k: len(TABLES[k]) for k in ("get", "ctor", "cond", "fit", "lsq")}
     ck.extra["generated_rows_exhaustive"] = True
@@ -607,7 +665,9 @@ def main(ck):
 
 def replay(ck, payload):
     case = payload["case"]
-    if case["kind"] == "row":
+    if case["kind"] == "params":
+        bad = check_params(case)
+    elif case["kind"] == "row":
         row = None
         for r in TABLES["get"]:
             if (r["fam"], r["meth"], r["fixed"], r["expl"], r["mode"]) == (
